@@ -380,6 +380,13 @@ def plan(tier: str) -> list[tuple]:
     return tasks
 
 
+def replay_case(raw: dict, part: Part) -> None:
+    """Plain re-execution of one history on one configuration (no explorer)."""
+    backends.setup_determinism()
+    backends.sqlite_template()
+    run_history(raw["config"], list(raw["history"]), "full", part, 0)
+
+
 def run(tier: str, replay: str | None = None) -> int:
     backends.setup_determinism()
     ctx = Ctx(PID, tier, "model_checking")
